@@ -300,6 +300,9 @@ func RunWorker(t *testing.T, cfg *WorkerConfig) *WorkerOutput {
 			out.Samples = append(out.Samples, b)
 		}
 		if len(res.Violations) == 0 {
+			if res.Stuck {
+				break
+			}
 			continue
 		}
 		v := res.Violations[0]
@@ -322,9 +325,10 @@ func RunWorker(t *testing.T, cfg *WorkerConfig) *WorkerOutput {
 		var min *Plan
 		var minRes *RunResult
 		execs := 0
-		if raceViolation {
-			// the detector reports a given race once per process: a re-execution
-			// here cannot confirm it, a fresh process (vcheck replay) can
+		if raceViolation || res.Stuck {
+			// the detector reports a given race once per process, and a stuck run
+			// leaves its goroutines behind: a re-execution here cannot confirm
+			// either, a fresh process (vcheck replay) can
 			min, minRes = plan, res
 		} else {
 			min, minRes, execs = Minimise(t, plan, &v, opts, 300, 45*time.Second)
